@@ -5,3 +5,4 @@ INVARIANT CondEqualsTemplateAtValues
 INVARIANT VectorisedEqualsPointwise
 INVARIANT ChainedSameGiven
 INVARIANT FixedSameForAllGiven
+INVARIANT OneResultPerGiven
